@@ -12,4 +12,16 @@ if ! go build -o build/vcheck ./cmd/vcheck 2>build/build.err; then
   head -30 build/build.err >&2
   exit 2
 fi
+case "$PROP" in
+  C03|C04|C05)
+    # instrumented variant: overlay generated from the current working tree of /repo
+    if go build -o build/vinstr ./cmd/vinstr 2>build/vinstr.err && ./build/vinstr -out build/overlay >build/vinstr.out 2>&1 \
+       && go build -tags verif -overlay build/overlay/overlay.json -o build/vcheck-instr ./cmd/vcheck 2>build/build-instr.err; then
+      exec ./build/vcheck-instr "$PROP" --tier "$TIER"
+    fi
+    echo "NOTE: instrumentation of the current tree failed; running the uninstrumented parts only" >&2
+    cat build/vinstr.out build/build-instr.err 2>/dev/null | head -20 >&2
+    VERIF_NO_INSTR=1 exec ./build/vcheck "$PROP" --tier "$TIER"
+    ;;
+esac
 exec ./build/vcheck "$PROP" --tier "$TIER"
